@@ -47,7 +47,11 @@ class FakeTask:
     _is_task = True
 TASK_TYPES = [('lv_universe', 'V1', ['a', 'b']), ('lv_universe', 'V2', ['x']), ('lv_universe2', 'V2', ['x']),
               ('lv_pkg.sub.defs', 'V2', ['x']), ('lv_pkg.other', 'V2', ['x']),
-              ('lv_universe', 'V', ['x']), ('lv_universe', 'VV', ['x']), ('lv_universe', 'VPost', ['x'])]
+              ('lv_universe', 'V', ['x']), ('lv_universe', 'VV', ['x']), ('lv_universe', 'VPost', ['x']), ('lv_universe', 'VDef', ['x', 'y'])]
+# values around VDef's defaults (x=1, y=(1, 2)): the default itself, and values == to it of another type
+NEAR_DEFAULT = {'x': [['int', '1'], ['float', (1.0).hex()], ['bool', True], ['int', '0'], ['bool', False]],
+                'y': [['tuple', [['int', '1'], ['int', '2']]], ['tuple', [['bool', True], ['float', (2.0).hex()]]], ['list', [['int', '1'], ['int', '2']]],
+                      ['tuple', [['float', (1.0).hex()], ['int', '2']]]]}
 KEY_POOL = ['k', 'a', 'b', 'name', 'x', '', 'é', 'a b', '__class__']
 
 
@@ -92,6 +96,8 @@ def gen_spec(rng, depth=0, *, bad=0.0, reserved=0.0, tasks=True, nan=True, mixed
         return ['dict', rng.random() < 0.4, kvs]
     if tasks:
         mod, name, fields = rng.choice(TASK_TYPES)
+        if name == 'VDef' and rng.random() < 0.7:
+            return ['task', mod, name, [[f, rng.choice(NEAR_DEFAULT[f])] for f in fields]]
         return ['task', mod, name, [[f, gen_spec(rng, depth + 1, bad=0.0, reserved=reserved, tasks=tasks, nan=nan, mixed=mixed)] for f in fields]]
     return rng.choice(SCALAR_POOL[:14])
 
@@ -129,6 +135,27 @@ def build(spec):
                 'fraction': fractions.Fraction(1, 3), 'decimal': decimal.Decimal('1.5'), 'bytearray': bytearray(b'x'),
                 'range': range(3), 'frozenset': frozenset([1])}[spec[1]]
     raise ValueError(spec)
+
+
+def respell(spec):
+    """A spec whose value is == (and hashes like) the value of `spec` but is spelt differently: 1 / 1.0 / True, dict entries in
+    the reverse insertion order, at every depth."""
+    k = spec[0]
+    if k == 'bool':
+        return ['int', str(int(bool(spec[1])))]
+    if k == 'int':
+        n = int(spec[1])
+        return ['float', float(n).hex()] if abs(n) < 2 ** 53 else spec
+    if k == 'float' and spec[1] not in ('nan', 'inf', '-inf'):
+        x = float.fromhex(spec[1])
+        return ['int', str(int(x))] if x == int(x) and not (x == 0 and math.copysign(1, x) < 0) else spec
+    if k in ('list', 'tuple', 'mytuple'):
+        return [k, [respell(x) for x in spec[1]]]
+    if k == 'dict':
+        return ['dict', spec[1], [[ks, respell(v)] for ks, v in reversed(spec[2])]]
+    if k == 'task':
+        return ['task', spec[1], spec[2], [[f, respell(v)] for f, v in spec[3]]]
+    return spec
 
 
 def contains_bad(spec):
